@@ -79,7 +79,7 @@ function makeWorld(spec) {
         __v_isVNode: true, n, factory: name, type, props: props === undefined ? null : props,
         children, patchFlag, dynamicProps, dirs: null, nargs: arguments.length,
       }
-      log({ ev: 'vnode', n, factory: name })
+      log({ ev: 'vnode', n, factory: name, tag: typeof type === 'string' ? type : !type ? '?' : type.__resolved ? String(type.name) : type.__opq ? String(type.__opq) : '?' })
       return vnode
     }
   }
@@ -268,7 +268,9 @@ function makeWorld(spec) {
         rec.err = { t: 'some', name: String(e && e.name), msg: String(e && e.message) }
       }
       try {
+        log({ ev: 'targets_begin' })
         rec.after = readTargets ? readTargets().map(([n, v]) => [n, canon(v, 1)]) : []
+        log({ ev: 'targets_end' })
       } catch (e) {
         rec.after = []
         rec.readerr = String(e && e.message)
